@@ -5,6 +5,7 @@ import (
 	"go/token"
 	"go/types"
 	"os"
+	"regexp"
 	"sort"
 	"strings"
 
@@ -485,18 +486,18 @@ var boundsReviewed = map[string]string{}
 
 func init() {
 	rv := func(fn, site, reason string) { boundsReviewed[fn+"|"+site] = reason }
-	rv("(*app/router.gnetServer).OnTraffic", "cc.buffer[cc.readN:]", "0 <= readN <= len(buffer) is the reassembly state invariant; its inductive steps (buffer installs reset readN to 0 or the copied count, readN only grows by copy into buffer[readN:]) are checked structurally by R13d")
+	rv("(*app/router.gnetServer).OnTraffic", "*.buffer[*.readN:]", "0 <= readN <= len(buffer) is the reassembly state invariant; its inductive steps (buffer installs reset readN to 0 or the copied count, readN only grows by copy into buffer[readN:]) are checked structurally by R13d")
 	rv("(internal/dnsmsg.Name).pack", "LabelOff() - 1", "after Scan() returned true, 1 <= labelOff <= len(n) (Scan sets labelOff = off+1 with off >= 0 and labelEnd <= len(n)); the relation between the scanner's n and the receiver is established by NewNameScanner(n); R02f checks the key shape")
 	rv("(*app/router.udpServer).startThreadLinux", "].N]", "recvmmsg contract of x/net ipv6.ReadBatch: for every returned message N <= len(Buffers[0]) and NN <= len(OOB); Buffers has the one element installed by the initialisation loop of this function")
 	rv("(*app/router.udpServer).startThreadLinux", "].NN]", "recvmmsg contract of x/net ipv6.ReadBatch (see above)")
 	rv("(*app/router.udpServer).startThreadLinux", ".Buffers[0]", "ms[i].Buffers is the one-element slice installed for every i by the initialisation loop at the top of this function and never reassigned")
-	rv("(*internal/netlist.List[int]).Lookup[int]$1", "l.e[i]", "sort.Search(n, f) calls f only with 0 <= i < n, n = len(l.e) (documented contract of package sort)")
-	rv("(*app/router.gnetServer).OnTraffic", "Uint16(cc.buffer)", "the prefix buffer is GetBuf(2) (R13d: readingHdr is true exactly for the 2-byte buffer)")
+	rv("(*internal/netlist.List[int]).Lookup[int]$1", "*.e[*]", "sort.Search(n, f) calls f only with 0 <= i < n, n = len(l.e) (documented contract of package sort)")
+	rv("(*app/router.gnetServer).OnTraffic", "Uint16(*.buffer)", "the prefix buffer is GetBuf(2) (R13d: readingHdr is true exactly for the 2-byte buffer)")
 	rv("(*internal/netlist.ListBuilder[int]).Build[int]$1", "[i]", "sort.Slice(x, less) calls less only with 0 <= i, j < len(x) (documented contract of package sort); rs is the slice being sorted")
 	rv("(*internal/netlist.ListBuilder[int]).Build[int]$1", "[j]", "sort.Slice contract (see above)")
 	rv("(*app/router.router).startUdpServer", ".cs[0]", "the loop above runs `threads` >= 1 times (values < 1 are replaced by 1 at the top of the function) and each iteration appends one socket or returns with an error: an invariant over a field's length across loop iterations, outside the linear prover")
-	rv("(*app/router.router).startUdpServer$1", ".cs[i]", "i is the captured index of `for i := range s.cs`; s.cs is not shortened afterwards (who-stores: only the append loop above)")
-	rv("(*app/router.ipMarker).Mark", "m.s[", "the index is a value stored by assignIdx (always len(labels)-1 at the time of the append, labels only grows) — an invariant over map contents beyond linear facts; who-stores checked by R07e")
+	rv("(*app/router.router).startUdpServer$1", ".cs[*]", "i is the captured index of `for i := range s.cs`; s.cs is not shortened afterwards (who-stores: only the append loop above)")
+	rv("(*app/router.ipMarker).Mark", "*.s[", "the index is a value stored by assignIdx (always len(labels)-1 at the time of the append, labels only grows) — an invariant over map contents beyond linear facts; who-stores checked by R07e")
 }
 
 func reviewedReason(fn *ssa.Function, in ssa.Instruction) (string, bool) {
@@ -514,11 +515,21 @@ func reviewedReason(fn *ssa.Function, in ssa.Instruction) (string, bool) {
 	}
 	for k, reason := range boundsReviewed {
 		parts := strings.SplitN(k, "|", 2)
-		if parts[0] == name && strings.Contains(text, parts[1]) {
+		if parts[0] == name && globContains(text, parts[1]) {
 			return reason, true
 		}
 	}
 	return "", false
+}
+
+// globContains: text contains pattern, where `*` in the pattern stands for any non-empty run of characters (the way a
+// base value is rendered — `cc`, `c.Context().(*router.connCtx)` — is not part of what was reviewed).
+func globContains(text, pattern string) bool {
+	if !strings.Contains(pattern, "*") {
+		return strings.Contains(text, pattern)
+	}
+	re, err := regexp.Compile(strings.ReplaceAll(regexp.QuoteMeta(pattern), `\*`, `.+?`))
+	return err == nil && re.MatchString(text)
 }
 
 // inferContracts iterates requires/ensures inference to a fixpoint (bounded).
